@@ -53,7 +53,9 @@ def task(t):
                 goal = T.zabs(r.term - Tt) <= T.Q(tol.K64 * tol.U) * T.zabs(Tt)
                 hyp = [box] + th.cons + o.pc
             else:
-                goal = T.zabs(r.term - Tt) <= T.Q(tol.KDEC * tol.EPS) * (1 + T.zabs(a.term))
+                # one rounding of the ratio (times |a|) and one of the product; an implementation that multiplies and divides
+                # by the two scales separately has one rounding amplified by 1/st or by sf instead -- all "rounding of the amount type"
+                goal = T.zabs(r.term - Tt) <= T.Q(tol.KDEC * tol.EPS * (1 + 1 / st_ + sf)) * (1 + T.zabs(a.term))
                 hyp = [box] + th.cons + o.pc + [f for _, f in th.side]      # decimal: claim is about non-overflowing executions (C18 owns panics)
             res, model = sv.check(hyp + [z3.Not(goal)], want_model=True, keep_sample=True)
             R.oblig(pair + " value", res == "unsat", True,
@@ -79,7 +81,7 @@ def task(t):
                 if not o.panic:
                     r = run.amount_of(o.state, q, o.value)
                     bad = a.term * T.Q(2 * sf / st_) + 1
-                    g = T.zabs(r.term - bad) <= T.Q(tol.K64 * tol.U) * T.zabs(bad) if be == "f64" else T.zabs(r.term - bad) <= T.Q(tol.KDEC * tol.EPS) * (1 + T.zabs(a.term))
+                    g = T.zabs(r.term - bad) <= T.Q(tol.K64 * tol.U) * T.zabs(bad) if be == "f64" else T.zabs(r.term - bad) <= T.Q(tol.KDEC * tol.EPS * (1 + 1 / st_ + sf)) * (1 + T.zabs(a.term))
                     res, _ = sv.check([box, a.term != 0] + th.cons + o.pc + [f for _, f in th.side] + [z3.Not(g)])
                     R.vacuity.append("%s canary (wrong spec 2T+1): %s" % (pair, res))
                     if res != "sat":
@@ -143,7 +145,7 @@ def oracle(c, out, scales):
     else:
         Tt = F(a) * sf / st_
         err = abs(F(r) - Tt)
-        ok = err <= tol.KDEC * tol.EPS * (1 + abs(F(a)))
+        ok = err <= tol.KDEC * tol.EPS * (1 + 1 / st_ + sf) * (1 + abs(F(a)))
     return (not ok), "convert(%s %s -> %s) = %s, exact %s, |err| = %.3e" % (a, fu, tu, r, float(Tt), float(err))
 
 
